@@ -34,6 +34,7 @@ func (s *Server) aofshrink() {
 		s.shrinking = false
 		s.shrinklog = nil
 		s.mu.Unlock()
+		verifPoint(s, "shrink.end")
 		log.Infof("aof shrink ended %v", time.Since(start))
 	}()
 
@@ -70,6 +71,7 @@ func (s *Server) aofshrink() {
 						},
 					)
 				}()
+				verifPoint(s, "shrink.keys", keys)
 				continue
 			}
 
@@ -149,6 +151,7 @@ func (s *Server) aofshrink() {
 					)
 
 				}()
+				verifPoint(s, "shrink.ids", keys[0], nextid, idsdone)
 				if len(aofbuf) > maxchunk {
 					if _, err := f.Write(aofbuf); err != nil {
 						return err
@@ -158,6 +161,7 @@ func (s *Server) aofshrink() {
 			}
 		}
 
+		verifPoint(s, "shrink.hooks")
 		// load hooks
 		// first load the names of the hooks
 		var hnames []string
@@ -222,6 +226,7 @@ func (s *Server) aofshrink() {
 			return err
 		}
 
+		verifPoint(s, "shrink.final")
 		// finally grab any new data that may have been written since
 		// the aofshrink has started and swap out the files.
 		return func() error {
@@ -242,6 +247,7 @@ func (s *Server) aofshrink() {
 
 			// flush the aof buffer
 			s.flushAOF(false)
+			verifPoint(s, "shrink.final.flushed")
 
 			aofbuf = aofbuf[:0]
 			for _, values := range s.shrinklog {
@@ -263,6 +269,7 @@ func (s *Server) aofshrink() {
 			if err := f.Sync(); err != nil {
 				return err
 			}
+			verifPoint(s, "shrink.final.written")
 			// we now have a shrunken aof file that is fully in-sync with
 			// the current dataset. let's swap out the on disk files and
 			// point to the new file.
@@ -275,12 +282,15 @@ func (s *Server) aofshrink() {
 			if err := f.Close(); err != nil {
 				log.Fatalf("shrink new aof close fatal operation: %v", err)
 			}
+			verifPoint(s, "shrink.final.closed")
 			if err := os.Rename(s.opts.AppendFileName, s.opts.AppendFileName+"-bak"); err != nil {
 				log.Fatalf("shrink backup fatal operation: %v", err)
 			}
+			verifPoint(s, "shrink.final.renamed1")
 			if err := os.Rename(s.opts.AppendFileName+"-shrink", s.opts.AppendFileName); err != nil {
 				log.Fatalf("shrink rename fatal operation: %v", err)
 			}
+			verifPoint(s, "shrink.final.renamed2")
 			s.aof, err = os.OpenFile(s.opts.AppendFileName, os.O_CREATE|os.O_RDWR, 0600)
 			if err != nil {
 				log.Fatalf("shrink openfile fatal operation: %v", err)
@@ -291,6 +301,7 @@ func (s *Server) aofshrink() {
 				log.Fatalf("shrink seek end fatal operation: %v", err)
 			}
 			s.aofsz = int(n)
+			verifPoint(s, "shrink.final.reopened")
 
 			os.Remove(s.opts.AppendFileName + "-bak") // ignore error
 
